@@ -227,6 +227,34 @@ CHECKS = {
         technique="TLA+ spec (Threads.tla) model-checked with TLC; per-thread traces of concurrent runs validated with "
                   "TraceExporter.tla; ThreadSanitizer as race instrument",
     ),
+    "C03": dict(
+        category="exploration",
+        text=("The specification states totality of the read side (Decoder!ImplOp: every operation on every stream ends in a value, "
+              "a decoder exception or end-of-input; ghosts for the largest reservation and the native recursion depth are "
+              "model-checked with the pinned deviations as self-tests). The C++ memory-safety part is observed, not proved: "
+              "TLC-generated structure-aware mutants of real files (every length field replaced by values up to 2^64-1, wrong "
+              "major types, nesting, out-of-range indices, malformed names/addresses in every string), hand-made extremes (nesting "
+              "up to 10^6, indefinite chunks announcing 2^47 bytes), random bytes, flipped and truncated valid files are fed to "
+              "every decoder operation, the reader and accessors, every string() renderer (ASan+UBSan, allocation cap, 8 MiB stack) "
+              "and to the five tools as child processes; TLC checks each recorded outcome is value/exception/end in bounded time."),
+        design_ref="DESIGN.md section 3 / C03 and section 4",
+        note="AddressSanitizer and UBSan are the instruments; the input space is sampled; TLC + CommunityModules; python orchestration "
+             "of child processes and rlimits.",
+        technique="TLA+ spec totality + ghosts (Decoder.tla) model-checked with TLC; TLC-generated mutants (Rewrite.tla) executed under "
+                  "ASan/UBSan, outcomes validated against the spec's outcome classes (TraceSafety.tla)",
+    ),
+    "C08": dict(
+        category="model_checking",
+        text=("Rewrite.tla defines the semantics-preserving rewrites of RFC 8949/8618 on CBOR trees (definite<->indefinite per "
+              "container and string, chunking, non-minimal head widths, rotation of map members, unknown positive/negative keys "
+              "with tagged / float / nested / indefinite values). TLC parses real exporter files, applies compositions of rewrites "
+              "at seed-chosen nodes, serialises the variants, checks that each is a valid file with the same denotation, and "
+              "validates that the real reader returns exactly the same dump for the original and every variant."),
+        design_ref="DESIGN.md section 3 / C08",
+        note=TRUST + "variants are a seeded family (12 per file quick, 50 thorough), not all compositions.",
+        technique="TLC-generated re-encodings (Rewrite.tla, GenVariants.tla) replayed on the real reader and validated by TLC "
+                  "(TraceReader.tla) together with the denotation invariance of the TLA+ reading",
+    ),
 }
 
 PENDING_REASON = "check not built yet in this revision (specification in progress); see DESIGN.md"
